@@ -2001,6 +2001,68 @@ def check_writer_bounds(chk):
     return n
 
 
+OWNED_ARRAYS = {'valueTypes': 'typestack.h', 'labels': 'labelstack.h'}
+
+
+def check_owned_array_stores(chk, funcs, rule='R10.17'):
+    """the growable tables of the translator (type stack / stack declarations: `valueTypes`; label stack: `labels`) are written only by
+    their owner helpers, which grow and clear the storage before they store (decided on concrete call sequences by the growable-array
+    rule) - a store `table->valueTypes[i] = / |= ...` anywhere else indexes storage whose capacity that code never established (the
+    stack-declaration table is as long as the deepest slot *declared* so far, not as the operand stack)"""
+    n_owner = 0
+    n_seen = 0
+    for tu, f in funcs:
+        body = astdb.fn_body(f)
+        if body is None:
+            continue
+        for x in walk(body):
+            k = x.get('kind')
+            lhs = None
+            if k in ('BinaryOperator', 'CompoundAssignOperator') and x.get('opcode', '').endswith('=') and x.get('opcode') not in ('==', '!=', '<=', '>='):
+                lhs = strip(kids(x)[0], casts=True)
+            elif k == 'UnaryOperator' and x.get('opcode') in ('++', '--'):
+                lhs = strip(kids(x)[0], casts=True)
+            if lhs is None or lhs.get('kind') != 'ArraySubscriptExpr':
+                continue
+            base = strip(kids(lhs)[0], casts=True)
+            if base.get('kind') != 'MemberExpr' or base.get('name') not in OWNED_ARRAYS:
+                continue
+            rec = record_of(kids(base)[0], tu)
+            if not re.search(r'TypeStack|LabelStack|WasmLabels', rec or ''):
+                continue
+            n_seen += 1
+            owner = OWNED_ARRAYS[base['name']]
+            here = (astdb.file_of(f) or '')
+            if here.endswith(owner):
+                n_owner += 1
+                continue
+            # a store under a guard that compares the index with the table's own length / capacity is covered
+            idx_t = astdb.expr_text(strip(kids(lhs)[1], casts=True)).replace(' ', '')
+            tab_t = astdb.expr_text(strip(kids(base)[0], casts=True)).replace(' ', '')
+            par = _parents(body)
+            cur, guarded = x, False
+            while cur is not None and id(cur) in par:
+                up = par[id(cur)]
+                if up.get('kind') == 'IfStmt':
+                    iks = [c_ for c_ in up.get('inner', []) if c_.get('kind')]
+                    if len(iks) >= 2 and iks[1] is cur:
+                        ct_ = astdb.expr_text(strip(iks[0], casts=True)).replace(' ', '')
+                        if re.search(re.escape(idx_t) + r'<' + re.escape(tab_t) + r'(->|\.)(length|capacity)\b', ct_):
+                            guarded = True
+                cur = up
+            if guarded:
+                chk.ok(rule, '%s:%s-store' % (f['name'], base['name']), 'store guarded by a comparison with the table\'s length / capacity')
+                continue
+            chk.fail(rule, '%s:%s-store' % (f['name'], base['name']),
+                     '%s (%s) stores into %s directly: only the helpers of %s write this table - they grow and clear it first; here the '
+                     'index is not covered by any capacity the function established, so a valid module whose slot was never declared '
+                     '(an operand produced by a block that ends in unreachable code) makes the translator write outside the table'
+                     % (f['name'], astdb.loc_str(x), astdb.expr_text(lhs), owner), '%s:owned-array-store' % f['name'], astdb.loc_str(x))
+    chk.require(n_owner >= 4, 'only %d stores into the type/label stack tables found in their owner headers (anchor drifted)' % n_owner)
+    chk.ok(rule, 'owner-only-stores', '%d stores into valueTypes / labels, all in the owner helpers' % n_owner)
+    return n_seen
+
+
 def check_hash_update(chk, rule='R10.16'):
     """every function body is hashed (SHA1 over the body bytes, any length): the block loop of SHA1Update reads whole 64-byte blocks
     from the input and copies the rest into the context buffer.  SHA1Update is evaluated on concrete lengths around the block
@@ -2130,6 +2192,8 @@ def run(chk):
     chk.floor('R10.15', 4)
     check_hash_update(chk)
     chk.floor('R10.16', 1)
+    check_owned_array_stores(chk, funcs)
+    chk.floor('R10.17', 1)
     chk.extra['sites'] = dict(sprintf=n_fmt, copies=n_cp, raw_buffer=n_buf, nullable_sinks=n_null,
                               tainted_locations=sorted(map(str, nf.tainted)), seed_evidence={str(k): v[:3] for k, v in just.items()})
     chk.floor('R10.1', 10)
